@@ -12,7 +12,7 @@ import (
 func init() {
 	register("C04", &monitor{
 		run: runC04,
-		rule: "differential against go1.23.5 fmt on the same call: (1) full product leaf kind x 2 values x 58 verbs x 12 flag sets x 13 width/precision forms, " +
+		rule: "differential against go1.23.5 fmt on the same call: (1) full product leaf kind x 2 values x 58 verbs x 12 flag sets x 18 width/precision forms (incl. widths and precisions around the 68-byte scratch buffer), " +
 			"(2) random calls (structured formats, hostile raw formats, Sprint) over the fmt-compatible universe (containers, pointers, nil, reflect.Value, Stringer/error/Formatter/GoStringer incl. panicking and nil-receiver ones, SafeValue and registered types) through Sprint/Sprintf/Fprint/Fprintf; " +
 			"oracle: StripMarkers(redact) == esc(fmt) and both panic or neither; non-trivial = the output contains an envelope or a diagnostic (%!); distinct = distinct (format, operands)",
 	})
@@ -70,6 +70,16 @@ func productLeaves(o genOpts, withSafeKinds bool) []*D {
 		dSub("RValue", dS("Stringer", rich)),
 		&D{K: "RValueZero"},
 		&D{K: "RValueField", N: 1, S: QS(rich)},
+		dSub("RVIdx", dSub("ptr", dSub("S2", dN("int", 1), dS("string", rich)))),
+		dSub("RVIdx", dS("Stringer", rich)),
+		dSub("RVIdx", &D{K: "nil"}),
+		dSub("RVFieldI", dSub("ptr", dSub("S2", dN("int", 1), dS("string", rich)))),
+		dSub("RVFieldI", dS("Err", rich)),
+		dSub("RVFieldI", &D{K: "nil"}),
+		&D{K: "RVFieldT", N: 2, S: QS(rich)},
+		&D{K: "RVFieldT", N: 3 + 7*8, S: QS(rich)},
+		&D{K: "RVFieldT", N: 5, S: QS(rich)},
+		&D{K: "RVFieldT", N: 6 + 7*8, S: QS(rich)},
 	)
 	return out
 }
@@ -79,7 +89,8 @@ var productWP = []struct {
 	w, p   string
 	wa, pa int
 }{{"", "", 0, 0}, {"6", "", 0, 0}, {"12", "", 0, 0}, {"*", "", 7, 0}, {"*", "", -7, 0}, {"", ".", 0, 0}, {"", ".0", 0, 0}, {"", ".2", 0, 0}, {"", ".*", 0, 3},
-	{"9", ".3", 0, 0}, {"*", ".*", 8, 1}, {"2", ".9", 0, 0}, {"20000001", "", 0, 0}}
+	{"9", ".3", 0, 0}, {"*", ".*", 8, 1}, {"2", ".9", 0, 0}, {"20000001", "", 0, 0},
+	{"67", "", 0, 0}, {"69", "", 0, 0}, {"", ".67", 0, 0}, {"*", ".*", 40, 30}, {"130", ".100", 0, 0}}
 
 func productCalls(leaves []*D) []*Call {
 	var calls []*Call
